@@ -230,7 +230,15 @@ func TestVerifC05(t *testing.T) {
 			ops = append(ops, all(1, 600)...)
 			ops = append(ops, hdJoinOp(2, 0, 0)) // 2 leaves the room
 			ops = append(ops, all(1, 700)...)
-			return []*hdCase{{Id: 0, Mode: 1, Ops: ops}}
+			// virtual sessions: reached through their internal client's connection with the recipient rewritten, also
+			// when the internal client itself is the sender
+			vo := []hdOp{{K: "connect", C: 1}, {K: "connect", C: 2}, {K: "hello", C: 1, Ht: "internal", B: 0}, {K: "hello", C: 2, B: 0, U: 5},
+				hdJoinOp(2, 1, 1), hdJoinOp(1, 1, 0), {K: "internal", C: 1, Ik: "addsession", V: 7, R: 1, U: 9},
+				{K: "msg", C: 1, To: &hdRecipient{T: "session", Id: &hdIdRef{T: "vpub", C: 1, V: 7}}, Tag: 42},
+				{K: "ctl", C: 1, To: &hdRecipient{T: "session", Id: &hdIdRef{T: "vpub", C: 1, V: 7}}, Tag: 43},
+				{K: "msg", C: 2, To: &hdRecipient{T: "session", Id: &hdIdRef{T: "vpub", C: 1, V: 7}}, Tag: 44},
+				{K: "msg", C: 2, To: &hdRecipient{T: "room"}, Tag: 45}, {K: "msg", C: 1, To: &hdRecipient{T: "room"}, Tag: 46}}
+			return []*hdCase{{Id: 0, Mode: 1, Ops: ops}, {Id: 1, Mode: 1, Ops: vo}}
 		}})
 }
 
@@ -339,19 +347,144 @@ func TestVerifC07(t *testing.T) {
 func TestVerifC08(t *testing.T) {
 	hdRunProperty(t, hdProp{id: "C08", quick: 110, thorough: 1100, minOps: 20,
 		opts: func(i int) hdGenOpts { return hdGenOpts{api: true, internal: i%4 == 0, media: true, perms: true} },
-		nontrivial: func(c *hdCase, tr string) bool { return hdHas(tr, "MCreate") || hdHas(tr, "SError 14") }})
+		nontrivial: func(c *hdCase, tr string) bool { return hdHas(tr, "MCreate") || hdHas(tr, "SError 14") },
+		directed: func() []*hdCase {
+			// permission names by index: see hdPermNames (0 publish-audio, 1 publish-video, 2 publish-screen, 3 publish-media, 4 control, 5 transient-data)
+			base := []hdOp{{K: "connect", C: 1}, {K: "connect", C: 2}, {K: "hello", C: 1, B: 0, U: 1}, {K: "hello", C: 2, B: 0, U: 2}}
+			offer := func(c int, stream string, media int) hdOp {
+				return hdOp{K: "media", C: c, Mk: "offer", Stream: stream, Media: media, To: hdToSession(c)}
+			}
+			req := func(c, of int, stream string) hdOp {
+				return hdOp{K: "media", C: c, Mk: "requestoffer", Stream: stream, To: hdToSession(of)}
+			}
+			perms := func(rs int, p ...int) hdOp {
+				return hdOp{K: "api", B: 0, SignAs: 0, R: 1, Api: "participants", RawRS: true, Users: []hdApiUser{{RS: rs, InCall: 7, HasP: true, Perm: p}}}
+			}
+			joinP := func(c, room, rs int, p ...int) hdOp {
+				o := hdJoinOp(c, room, rs)
+				o.HasP, o.Perm = true, p
+				return o
+			}
+			incall := hdOp{K: "api", B: 0, SignAs: 0, R: 1, Api: "incallall", InCall: 7}
+			var out []*hdCase
+			id := 0
+			add := func(gated bool, ops ...hdOp) {
+				all := append(append([]hdOp{}, base...), ops...)
+				if gated {
+					all = append(all, hdOp{K: "mcuflush"})
+				}
+				out = append(out, &hdCase{Id: id, Mode: 1, Gated: gated, Ops: all})
+				id++
+			}
+			// every stream type published with full permissions, then each way of losing them
+			add(false, hdJoinOp(1, 1, 1), hdJoinOp(2, 1, 2), incall, offer(1, "video", 3), offer(1, "screen", 0), perms(1))                 // everything withdrawn at once
+			add(false, hdJoinOp(1, 1, 1), hdJoinOp(2, 1, 2), incall, offer(1, "audio", 1), offer(1, "video", 2), perms(1, 1), perms(1, 0)) // audio only, then video only
+			add(false, hdJoinOp(1, 1, 1), hdJoinOp(2, 1, 2), incall, offer(1, "video", 3), perms(1, 3), perms(1, 0, 1), perms(1, 2), offer(1, "video", 1), offer(1, "screen", 0))
+			// published before joining, the room does not grant it; an empty permission list in the join reply
+			add(false, offer(1, "video", 3), offer(1, "screen", 0), joinP(1, 1, 1, 4), hdJoinOp(2, 1, 2))
+			add(false, offer(1, "video", 3), joinP(1, 1, 1), offer(1, "video", 3), offer(1, "screen", 0), hdOp{K: "transient", C: 1, Tk: "set", Key: 1, Tag: 1},
+				hdOp{K: "ctl", C: 1, To: &hdRecipient{T: "room"}, Tag: 5})
+			// switching to a room with fewer permissions
+			add(false, joinP(1, 1, 1, 3, 2), offer(1, "video", 3), offer(1, "screen", 0), joinP(1, 2, 1, 0), offer(1, "video", 2))
+			// a creation in progress while the permission is withdrawn
+			add(true, hdJoinOp(1, 1, 1), hdJoinOp(2, 1, 2), incall, offer(1, "video", 3), perms(1, 4), hdOp{K: "mcudone", Res: "ok"})
+			add(true, hdJoinOp(1, 1, 1), hdJoinOp(2, 1, 2), incall, offer(1, "screen", 0), perms(1, 3), hdOp{K: "mcudone", Res: "ok"})
+			// requesting a stream: same room and both in the call, in every combination
+			add(false, hdJoinOp(1, 1, 1), hdJoinOp(2, 2, 2), offer(1, "video", 3), req(2, 1, "video"), hdJoinOp(2, 1, 2), req(2, 1, "video"), incall, req(2, 1, "video"),
+				hdOp{K: "api", B: 0, SignAs: 0, R: 1, Api: "incall", RawRS: true, Users: []hdApiUser{{RS: 2, InCall: 0}}}, req(2, 1, "screen"),
+				hdOp{K: "api", B: 0, SignAs: 0, R: 1, Api: "incall", RawRS: true, Users: []hdApiUser{{RS: 2, InCall: 7}, {RS: 1, InCall: 0}}}, req(2, 1, "screen"),
+				hdJoinOp(2, 0, 0), hdJoinOp(2, 1, 2), req(2, 1, "video"))
+			return out
+		}})
 }
 
 // ---- C09 ----
 func TestVerifC09(t *testing.T) {
 	hdRunProperty(t, hdProp{id: "C09", quick: 110, thorough: 1100, minOps: 20,
 		opts: func(i int) hdGenOpts { return hdGenOpts{api: true, internal: i%4 == 0, media: true, gatedAlways: i%2 == 0, endings: true} },
-		nontrivial: func(c *hdCase, tr string) bool { return hdHas(tr, "MCreate") && (hdHas(tr, "MClose") || hdHas(tr, "MFailed")) }})
+		nontrivial: func(c *hdCase, tr string) bool { return hdHas(tr, "MCreate") && (hdHas(tr, "MClose") || hdHas(tr, "MFailed")) },
+		directed: func() []*hdCase {
+			// a slow media server: the creation completes after the owner left the call / the room / was closed /
+			// lost the permission; two requests for one stream; each time for a session that holds nothing yet and
+			// for one that already holds another object
+			base := []hdOp{{K: "connect", C: 1}, {K: "connect", C: 2}, {K: "hello", C: 1, B: 0, U: 1}, {K: "hello", C: 2, B: 0, U: 2},
+				hdJoinOp(1, 1, 1), hdJoinOp(2, 1, 2),
+				{K: "api", B: 0, SignAs: 0, R: 1, Api: "incallall", InCall: 7}}
+			offer := func(c int, stream string) hdOp {
+				return hdOp{K: "media", C: c, Mk: "offer", Stream: stream, Media: 3, To: hdToSession(c)}
+			}
+			req := func(c, of int, stream string) hdOp {
+				return hdOp{K: "media", C: c, Mk: "requestoffer", Stream: stream, To: hdToSession(of)}
+			}
+			done := hdOp{K: "mcudone", Res: "ok"}
+			leaveCall := func(rs int) hdOp {
+				return hdOp{K: "api", B: 0, SignAs: 0, R: 1, Api: "incall", RawRS: true, Users: []hdApiUser{{RS: rs, InCall: 0}}}
+			}
+			del := hdOp{K: "api", B: 0, SignAs: 0, R: 1, Api: "delete"}
+			noperm := hdOp{K: "api", B: 0, SignAs: 0, R: 1, Api: "participants", RawRS: true, Users: []hdApiUser{{RS: 1, InCall: 7, HasP: true, Perm: []int{4}}}}
+			var out []*hdCase
+			id := 0
+			add := func(ops ...hdOp) {
+				all := append(append([]hdOp{}, base...), ops...)
+				all = append(all, hdOp{K: "mcuflush"}, hdOp{K: "bye", C: 1}, hdOp{K: "bye", C: 2})
+				out = append(out, &hdCase{Id: id, Mode: 1, Gated: true, Ops: all})
+				id++
+			}
+			// first object of the session
+			add(offer(1, "video"), leaveCall(1), done)
+			add(offer(1, "video"), del, done)
+			add(offer(1, "video"), noperm, done)
+			add(offer(1, "screen"), hdOp{K: "api", B: 0, SignAs: 0, R: 1, Api: "incallall", InCall: 0}, done)
+			add(offer(1, "video"), hdOp{K: "api", B: 0, SignAs: 0, R: 1, Api: "disinvite", RawRS: true, Users: []hdApiUser{{RS: 1}, {U: 1}}}, done)
+			// a publisher exists, the subscriber of the other session is slow
+			add(offer(1, "video"), done, req(2, 1, "video"), leaveCall(2), done)
+			add(offer(1, "video"), done, req(2, 1, "video"), del, done)
+			add(offer(1, "video"), done, offer(2, "screen"), done, req(2, 1, "video"), leaveCall(2), done)
+			// failing creations, and the owner gone for good
+			add(offer(1, "video"), hdOp{K: "mcudone", Res: "fail"}, offer(1, "video"), done)
+			add(offer(1, "video"), hdOp{K: "drop", C: 2}, hdOp{K: "tick", O: 40}, done)
+			// two creations in flight for one stream of one session: the later one is closed again, the first stays
+			// (and is closed when its owner leaves)
+			add(offer(1, "video"), done, req(2, 1, "video"), req(2, 1, "video"), done, done, req(2, 1, "video"), leaveCall(2))
+			add(offer(1, "video"), done, req(2, 1, "video"), req(2, 1, "video"), hdOp{K: "mcudone", Res: "fail"}, done, del)
+			add(offer(1, "video"), hdOp{K: "connect", C: 3}, hdOp{K: "hello", C: 3, Ht: "resume", Id: &hdIdRef{T: "priv", C: 1}},
+				offer(3, "video"), done, done, offer(3, "video"), leaveCall(1))
+			return out
+		}})
 }
 
 // ---- C19 ----
 func TestVerifC19(t *testing.T) {
 	hdRunProperty(t, hdProp{id: "C19", quick: 110, thorough: 1100, minOps: 20,
 		opts: func(i int) hdGenOpts { return hdGenOpts{api: i%3 == 0, internal: true, virtual: true, messages: true} },
-		nontrivial: func(c *hdCase, tr string) bool { return hdHas(tr, "IAdd") && hdHas(tr, "mksd") && strings.Contains(tr, " 3 ") }})
+		nontrivial: func(c *hdCase, tr string) bool { return hdHas(tr, "IAdd") && hdHas(tr, "mksd") && strings.Contains(tr, " 3 ") },
+		directed: func() []*hdCase {
+			base := []hdOp{{K: "connect", C: 1}, {K: "connect", C: 2}, {K: "connect", C: 3},
+				{K: "hello", C: 1, Ht: "internal", B: 0}, {K: "hello", C: 2, B: 0, U: 2}, {K: "hello", C: 3, Ht: "internal", B: 0, Feat: []string{ClientFeatureInternalInCall}},
+				hdJoinOp(2, 1, 2), hdJoinOp(1, 1, 0)}
+			addv := func(c, v, room, u int) hdOp { return hdOp{K: "internal", C: c, Ik: "addsession", V: v, R: room, U: u} }
+			upd := func(c, v, room, fl, ic int) hdOp {
+				return hdOp{K: "internal", C: c, Ik: "updatesession", V: v, R: room, HasF: true, Flags: fl, HasIC: true, InCall: ic}
+			}
+			rem := func(c, v, room int) hdOp { return hdOp{K: "internal", C: c, Ik: "removesession", V: v, R: room} }
+			toV := func(c, of, v, tag int) hdOp {
+				return hdOp{K: "msg", C: c, To: &hdRecipient{T: "session", Id: &hdIdRef{T: "vpub", C: of, V: v}}, Tag: tag}
+			}
+			var out []*hdCase
+			for i, ops := range [][]hdOp{
+				// add, update, remove; remove twice; unknown id; room of nobody
+				{addv(1, 1, 1, 5), toV(2, 1, 1, 10), upd(1, 1, 1, 2, 9), upd(1, 1, 1, 2, 5), upd(1, 1, 2, 1, 0), rem(1, 1, 1), rem(1, 1, 1), toV(2, 1, 1, 11), rem(1, 2, 1), addv(1, 3, 9, 5)},
+				// the same id twice: the first one is replaced and goes away; then one remove removes it
+				{addv(1, 1, 1, 5), addv(1, 1, 1, 6), toV(2, 1, 1, 12), upd(1, 1, 1, 1, 9), rem(1, 1, 1), toV(2, 1, 1, 13), rem(1, 1, 1)},
+				// the internal client's session ends in each way with virtual sessions alive
+				{addv(1, 1, 1, 5), addv(1, 2, 1, 6), {K: "bye", C: 1}, toV(2, 1, 1, 14)},
+				{addv(1, 1, 1, 5), addv(1, 2, 1, 6), {K: "drop", C: 1}, {K: "tick", O: 40}, toV(2, 1, 2, 15)},
+				{addv(1, 1, 1, 5), {K: "api", B: 0, SignAs: 0, R: 1, Api: "delete"}, toV(2, 1, 1, 16), rem(1, 1, 1)},
+				// two internal clients with the same chosen id; an ordinary client trying
+				{addv(1, 1, 1, 5), hdJoinOp(3, 1, 0), addv(3, 1, 1, 6), rem(3, 1, 1), toV(2, 1, 1, 17), toV(2, 3, 1, 18), addv(2, 1, 1, 7), upd(2, 1, 1, 1, 1), rem(2, 1, 1)},
+			} {
+				out = append(out, &hdCase{Id: i, Mode: 1, Ops: append(append([]hdOp{}, base...), ops...)})
+			}
+			return out
+		}})
 }
